@@ -313,8 +313,10 @@ def check(run):
     run.clause('R10 tcp-connect: completing the connect on SYN-ACK resumes a write parked behind it')
     mv = [f for f in handlers.flows_in(fx, ip) if f.entity == 'field:' + T + '::m_connect_handler' and (f.dest == 'post' or f.kind in ('move', 'exchange'))]     # taken out of the slot to be completed (directly, or through a posting helper)
     resets = [c for c in ip.calls() if (c.get('callee') or '').endswith('::reset') and q.render(ip, c.get('obj')) == 'm_channel']
+    # the channel may also be dropped by assignment, and before the completion is posted (the failure path either way)
+    resets += [a_.site for a_ in q.field_accesses(ip, {T + '::m_channel'}) if a_.kind in ('assign', 'move') and is_node(a_.site)]
     synack_wakes = [w for w in wakes if w not in ack_wakes]
-    run.check(bool(mv) and all(q.must_follow(ip, f.site, synack_wakes + resets) for f in mv) and bool(synack_wakes), 'R10', 'tcp-connect', T + '::incoming_packet:syn_ack-branch', ip.loc(),
+    run.check(bool(mv) and all(q.must_follow(ip, f.site, synack_wakes + resets) or q.any_precedes(ip, resets, f.site) for f in mv) and bool(synack_wakes), 'R10', 'tcp-connect', T + '::incoming_packet:syn_ack-branch', ip.loc(),
               'after the connect handler is completed on SYN-ACK no maybe_wakeup_writer() follows: a write issued before the connect finished stays parked forever', 'maybe_wakeup_writer() follows the connect completion on the success path')
 
     accept_queue_rules(run)
